@@ -29,7 +29,8 @@ class StepGuard(Exception):
 
 class Scripted(random.Random):
     def __init__(self, stream, name):
-        self._u = [n / DEN for n in stream]          # exact: n < 2^21
+        # n -> n / 2^21 (exact: n < 2^21);  [num, k] -> num / 2^k (tiny values such as 2^-61, exact)
+        self._u = [(n[0] / float(2 ** n[1])) if isinstance(n, list) else n / DEN for n in stream]
         self._pos = 0
         self.name = name
         self.requests = []
@@ -131,6 +132,38 @@ def mk_dist(d, lab=None):
     raise ValueError(d)
 
 
+def num(case, s):
+    """the number msdm is given for the rational s: a double; with opts.int_types integral values are Python ints"""
+    f = Fraction(s)
+    if (case.get("opts") or {}).get("int_types") and f.denominator == 1:
+        return int(f)
+    return float(f)
+
+
+def snapshot(mdp, pol):
+    """a printable copy of every caller-owned object a roll-out could touch (to detect mutation of the caller's inputs)"""
+    import numpy as np
+    parts = []
+    for name in ("trans", "rew", "actions", "absorbing", "init"):
+        o = getattr(mdp, "_c14_" + name, None)
+        if isinstance(o, dict):
+            parts.append(repr([(repr(k), repr(list(v.items())) if hasattr(v, "items") else repr(v)) for k, v in o.items()]))
+        elif o is not None:
+            parts.append(repr(list(o.items())) if hasattr(o, "items") else repr(o))
+    for name in ("P", "R", "AM", "ini", "absvec"):
+        o = getattr(mdp, "_c14_" + name, None)
+        if o is not None:
+            parts.append(o.tobytes().hex() + str(o.dtype))
+    t = getattr(pol, "_c14_tbl", None)
+    if t is not None:
+        parts.append(repr([(repr(k), type(v).__name__, repr(list(v.items()))) for k, v in t.items()]))
+    d = getattr(pol, "_c14_data", None)
+    if d is not None:
+        parts.append(d.tobytes().hex() + str(d.dtype))
+    import hashlib
+    return hashlib.sha1("|".join(parts).encode()).hexdigest()
+
+
 def build_mdp14(case, m=None, lab=None):
     """the MDP of a C14 case through one of the public constructors, with the case's labels:
     repr 'quick' = QuickTabularMDP from functions/DictDistributions (zero entries kept, given order),
@@ -146,8 +179,11 @@ def build_mdp14(case, m=None, lab=None):
     gamma = fl(m["gamma"])
     if opts.get("gamma_int"):
         gamma = int(Fraction(m["gamma"]))
+    fl_ = lambda x: num(case, x)
     if opts.get("repr") == "matrices":
-        P = np.zeros((n, nA, n)); R = np.zeros((n, nA, n)); AM = np.zeros((n, nA))
+        dt = np.float32 if opts.get("float32") else (np.int64 if opts.get("int_arrays") else float)
+        P = np.zeros((n, nA, n), dtype=dt); R = np.zeros((n, nA, n), dtype=np.float32 if opts.get("float32") else float)
+        AM = np.zeros((n, nA), dtype=np.int64 if opts.get("int_types") else float)
         for k, row in m["trans"].items():
             s, a = map(int, k.split(","))
             AM[s, a] = 1
@@ -157,32 +193,41 @@ def build_mdp14(case, m=None, lab=None):
             s, a, ns = map(int, k.split(","))
             if P[s, a, ns] != 0:
                 R[s, a, ns] = fl(r)
-        ini = np.zeros(n)
+        ini = np.zeros(n, dtype=np.float32 if opts.get("float32") else float)
         for s, p in m["init"]:
             ini[s] = fl(p)
         mdp = TabularMarkovDecisionProcess.from_matrices(
             state_list=tuple(lab.S), action_list=tuple(lab.A), initial_state_vec=ini, transition_matrix=P,
             action_matrix=AM, reward_matrix=R, absorbing_state_vec=np.array(m["absorbing"], dtype=bool),
             discount_rate=gamma)
+        mdp._c14_P, mdp._c14_R, mdp._c14_AM, mdp._c14_ini = P, R, AM, ini
     else:
         trans = {}
+        shared = {}
         for k, row in m["trans"].items():
             s, a = map(int, k.split(","))
-            trans[(lab.S[s], lab.A[a])] = DictDistribution({lab.S[ns]: fl(p) for ns, p in row})
+            key = tuple((ns, p) for ns, p in row)
+            if key not in shared:            # ONE distribution object for all (s, a) with the same row
+                shared[key] = DictDistribution({lab.S[ns]: fl_(p) for ns, p in row})
+            trans[(lab.S[s], lab.A[a])] = shared[key]
         rew = {}
         for k, r in m["reward"].items():
             s, a, ns = map(int, k.split(","))
-            rew[(lab.S[s], lab.A[a], lab.S[ns])] = fl(r)
-        actions = {lab.S[s]: tuple(lab.A[a] for a in acts) for s, acts in enumerate(m["actions"])}
+            rew[(lab.S[s], lab.A[a], lab.S[ns])] = fl_(r)
+        # ONE list object returned by actions(s) for all states with the same action set
+        alists = {}
+        actions = {lab.S[s]: alists.setdefault(tuple(acts), [lab.A[a] for a in acts]) for s, acts in enumerate(m["actions"])}
         absorbing = {lab.S[s]: bool(x) for s, x in enumerate(m["absorbing"])}
-        init = DictDistribution({lab.S[s]: fl(p) for s, p in m["init"]})
+        init = DictDistribution({lab.S[s]: fl_(p) for s, p in m["init"]})
+        zero = 0 if opts.get("int_types") else 0.0
         mdp = QuickTabularMDP(
             next_state_dist=lambda s, a: trans[(s, a)],
-            reward=lambda s, a, ns: rew.get((s, a, ns), 0.0),
+            reward=lambda s, a, ns: rew.get((s, a, ns), zero),
             actions=lambda s: actions[s],
             initial_state_dist=init,
             is_absorbing=lambda s: absorbing[s],
             discount_rate=gamma)
+        mdp._c14_trans, mdp._c14_rew, mdp._c14_actions, mdp._c14_absorbing, mdp._c14_init = trans, rew, actions, absorbing, init
     if opts.get("touch"):
         # the object has been USED before the roll-out: cached views are filled
         mdp.state_list, mdp.action_list, mdp.transition_matrix, mdp.reward_matrix
@@ -196,13 +241,19 @@ def mk_policy(case, mdp):
     import numpy as np
     p = case["policy"]
     lab = Labels(case)
+    opts = case.get("opts") or {}
     if p["kind"] == "functional":
         tbl = {lab.S[s]: mk_dist(d, lab.A) for s, d in enumerate(p["dists"])}
-        return FunctionalPolicy(lambda s: tbl[s])
+        pol = FunctionalPolicy(lambda s: tbl[s])
+        pol._c14_tbl = tbl
+        return pol
     if p["kind"] == "tabular":
         n, nA = case["mdp"]["n"], case["mdp"]["nA"]
-        data = np.array([[fl(x) for x in row] for row in p["matrix"]], dtype=float).reshape((n, nA))
-        return TabularPolicy.from_state_action_lists(state_list=tuple(lab.S), action_list=tuple(lab.A), data=data)
+        dt = np.float32 if opts.get("float32") else (np.int64 if opts.get("int_arrays") else float)
+        data = np.array([[fl(x) for x in row] for row in p["matrix"]], dtype=dt).reshape((n, nA))
+        pol = TabularPolicy.from_state_action_lists(state_list=tuple(lab.S), action_list=tuple(lab.A), data=data)
+        pol.__dict__["_c14_data"] = data
+        return pol
     raise ValueError(p["kind"])
 
 
@@ -278,6 +329,7 @@ def run_once(pol, mdp, lab, case, run):
         kw["rng"] = rng            # else: the default generator (module `random`), here the scripted global one
     if run["s0"] is not None or not run.get("omit_s0"):
         kw["initial_state"] = lab.s(run["s0"])
+    before = snapshot(mdp, pol)
     try:
         with GlobalPatch(g):
             res = pol.run_on(mdp, **kw)
@@ -289,6 +341,8 @@ def run_once(pol, mdp, lab, case, run):
         mdp._is_absorbing = guard[1]
     out = traj_json(res, lab)
     out["rng"], out["global"] = rng.summary(), g.summary()
+    out["inputs_unchanged"] = snapshot(mdp, pol) == before
+    out["_res"] = res
     return out
 
 
@@ -297,11 +351,21 @@ def one_mdp_run(case):
     mdp = build_mdp14(case, lab=lab)
     pol = mk_policy(case, mdp)
     out = run_once(pol, mdp, lab, case, case)
+    first = out.pop("_res", None)
     sec = case.get("second")
     if sec and "skipped" not in out:
         # the SAME policy object again: on the same MDP object, or on a second MDP with the same labels
         mdp2 = mdp if sec.get("mdp") is None else build_mdp14(case, m=sec["mdp"], lab=lab)
         out["second"] = run_once(pol, mdp2, lab, case, sec)
+        out["second"].pop("_res", None)
+        # the FIRST result, queried again after the second call
+        again = traj_json(first, lab)
+        out["first_result_stable"] = all(again[k] == out[k] for k in again)
+    if case.get("twice") and "skipped" not in out:
+        # the same problem built and run a second time in this process: same outcome
+        c2 = {k: v for k, v in case.items() if k not in ("twice", "second")}
+        o2 = one_mdp_run(c2)
+        out["twice_same"] = all(o2.get(k) == out.get(k) for k in ("steps", "final", "rng", "global", "acc_state", "acc_reward"))
     return out
 
 
@@ -335,6 +399,7 @@ def one_mdp_eval(case):
         pol.run_on = rec
     except Exception:
         object.__setattr__(pol, "run_on", rec)
+    before = snapshot(mdp, pol)
     try:
         with GlobalPatch(g):
             ev = Policy.evaluate_on(pol, mdp, n_simulations=int(case["n_sims"]), max_steps=cap_of(case), rng=rng)
@@ -342,17 +407,44 @@ def one_mdp_eval(case):
         return {"skipped": "stream exhausted (%s)" % e}
     except StepGuard:
         return {"skipped": "step guard"}
+    finally:
+        mdp._is_absorbing = guard[1]
+    unchanged = snapshot(mdp, pol) == before
+
+    def tables(ev):
+        sl = list(ev.state_value.state_list)
+        av_sl, av_al = list(ev.action_value.state_list), list(ev.action_value.action_list)
+        occ_sl = list(ev.state_occupancy.state_list)
+        return {"state_value": [[lab.sid(s), fj(ev.state_value[s])] for s in sl],
+                "action_value": [[lab.sid(s), lab.aid(a), fj(ev.action_value[s][a])] for s in av_sl for a in av_al],
+                "occupancy": [[lab.sid(s), fj(ev.state_occupancy[s])] for s in occ_sl],
+                "initial_value": fj(ev.initial_value)}
+    first_tables = tables(ev)
+    rollouts = [traj_json(r, lab) for r in recs]
+    stable = None
+    if opts.get("second_eval"):
+        # a second evaluation with the same policy object (other n, cap, stream); then the FIRST result is read again
+        w = guard_absorbing(mdp, 80)
+        try:
+            with GlobalPatch(Scripted(case["gstream"], "global")):
+                Policy.evaluate_on(pol, mdp, n_simulations=2, max_steps=3, rng=Scripted(opts["second_eval"], "second"))
+        except (StreamExhausted, StepGuard):
+            pass
+        finally:
+            mdp._is_absorbing = w[1]
+        stable = tables(ev) == first_tables and [traj_json(r, lab) for r in recs[:len(rollouts)]] == rollouts
     sl = list(ev.state_value.state_list)
     av_sl, av_al = list(ev.action_value.state_list), list(ev.action_value.action_list)
     occ_sl = list(ev.state_occupancy.state_list)
 
     out = {
+        "inputs_unchanged": unchanged, "first_result_stable": stable,
         "state_value": [[lab.sid(s), fj(ev.state_value[s])] for s in sl],
         "action_value": [[lab.sid(s), lab.aid(a), fj(ev.action_value[s][a])] for s in av_sl for a in av_al],
         "occupancy": [[lab.sid(s), fj(ev.state_occupancy[s])] for s in occ_sl],
         "initial_value": fj(ev.initial_value),
         "n_simulations": ev.n_simulations,
-        "rollouts": [traj_json(r, lab) for r in recs],
+        "rollouts": rollouts,
         "rng": rng.summary(), "global": g.summary(),
     }
     return out
@@ -368,7 +460,10 @@ def one_returns(case):
     rets = Policy.calc_returns(rs, g)
     rets_int = Policy.calc_returns([int(Fraction(r)) if Fraction(r).denominator == 1 else fl(r) for r in case["rewards"]], g)
     out = {"returns": [fj(x) for x in rets], "returns_intlist": [fj(x) for x in rets_int]}
+    out["inputs_unchanged"] = rs == [fl(r) for r in case["rewards"]]
     if not case.get("long"):
+        if all(Fraction(r).denominator in (1, 2, 4) and abs(Fraction(r)) < 2 ** 20 for r in case["rewards"]):
+            out["returns_float32"] = [fj(x) for x in Policy.calc_returns(np.array(rs, dtype=np.float32), g)]
         out["returns_tuple"] = [fj(x) for x in Policy.calc_returns(tuple(rs), g)]
         out["returns_ndarray"] = [fj(x) for x in Policy.calc_returns(np.array(rs), np.float64(g))]
     return out
